@@ -1,7 +1,7 @@
 (* C19_Check.v — correspondence checker for C19.  [model_agrees]: the pipeline model, given the
    statement the dry run exposed and the answers the database gave, predicts the driver calls of
    both runs.  [spec_holds]: the property on what was observed. *)
-From Verif Require Export Base C01_Model C19_Model.
+From Verif Require Export Base C01_Model C19_Model C19_Tx.
 
 Definition scalars_eqb := list_eqb scalar_eqb.
 Definition ev_eqb (a b : ev) : bool :=
@@ -17,7 +17,11 @@ Inductive finisher :=
 | FPlain | FRows | FSave | FBatch      (* Execute once / Rows-Scan / Save with a key / CreateInBatches *)
 | FRow                                 (* Row(): the row processor, no error in DryRun *)
 | FNested (nb na : nat)                (* nb derived statements before the main one, na after it *)
-| FManualTx.                           (* Begin(); operation; Rollback() *)
+| FManualTx                            (* Begin(); operation; Rollback() *)
+| FScript (encl : bool) (steps : list tstep).
+   (* a transaction script (C19_Tx): Transaction blocks at any depth, SavePoint / RollbackTo, operations;
+      encl: on a handle between Begin() and Rollback(); each TOp carries the statement that operation
+      exposed in the dry run *)
 
 Record case := mk_case {
   c_kind : opk; c_fin : finisher; c_mode : mode; c_skip : bool;
@@ -29,7 +33,8 @@ Record case := mk_case {
   o_tosql : string;                    (* what DB.ToSQL returned (ToSQL mode) *)
   o_explained : string;                (* the dialector's Explain of the statement the dry handle exposes *)
   (* observed, real run from an identical handle on the same data *)
-  o_real_log : list ev; o_real_err : bool
+  o_real_log : list ev; o_real_err : bool;
+  o_dry_shown : list (string * list scalar)   (* scripts: Statement.SQL / Vars of every operation of the dry run *)
 }.
 
 Definition dry_of (c : case) : cfg :=
@@ -63,6 +68,21 @@ Definition run_model (cf : cfg) (c : case) (orc : list dres) : rst :=
     let st := stmts_of (o_real_log c) in
     execute_nested cf (c_kind c) (built_of c) (firstn nb st) (firstn na (skipn (S nb) st)) (rst0 orc)
   | FManualTx => manual_tx cf (c_kind c) (built_of c) (rst0 orc)
+  | FScript encl steps => ts (run_script cf encl steps (rst0 orc))
+  end.
+
+Definition stmt_eqb (a b : string * list scalar) : bool :=
+  String.eqb (fst a) (fst b) && scalars_eqb (snd a) (snd b).
+Definition script_shown (cf : cfg) (c : case) (orc : list dres) : list (string * list scalar) :=
+  match c_fin c with
+  | FScript encl steps => tshown (run_script cf encl steps (rst0 orc))
+  | _ => []
+  end.
+Fixpoint is_prefix (a b : list (string * list scalar)) : bool :=
+  match a, b with
+  | [], _ => true
+  | x :: a', y :: b' => stmt_eqb x y && is_prefix a' b'
+  | _ :: _, [] => false
   end.
 
 Definition model_agrees (c : case) : bool :=
@@ -71,7 +91,8 @@ Definition model_agrees (c : case) : bool :=
   evs_eqb (r_log d) (o_dry_log c)
   && Bool.eqb (r_err d) (o_dry_err c)
   && evs_eqb (r_log r) (o_real_log c)
-  && Bool.eqb (r_err r) (o_real_err c).
+  && Bool.eqb (r_err r) (o_real_err c)
+  && list_eqb stmt_eqb (script_shown (dry_of c) c (c_dorc c)) (o_dry_shown c).
 
 (* ---- the property on the observed runs ---- *)
 Definition o_real_begin_failed (c : case) : bool :=
@@ -96,6 +117,11 @@ Definition spec_holds (c : case) : bool :=
   (* the exposed statement is the first statement the real run sends *)
   && match c_fin c, main_stmt c with
      | FBatch, _ => true           (* several statements, none of them "the" main statement *)
+     | FScript _ _, _ =>
+       (* savepoint control apart, the real run sends the statements the operations of the dry run
+          exposed, in order: all of them, or a first part when it stopped with an error *)
+       let m := main_stmts (o_real_log c) in
+       is_prefix m (o_dry_shown c) && (o_real_err c || (length m =? length (o_dry_shown c))%nat)
      | _, Some (s, v) => String.eqb s (o_dry_sql c) && scalars_eqb v (o_dry_vars c)
      (* the real run sent nothing (refused, or nothing to do): then the dry run must not have shown,
         without an error, a statement "that would be sent" *)
